@@ -237,7 +237,7 @@ def show_step(o):
 def find_step(F, adt_suffix):
     c = [b for b in F.fns.values() if builds_variant(b, adt_suffix, "Unique") and not b.get("derived")]
     if len(c) != 1:
-        raise Unsupported("anchor-missing: expected exactly one function constructing %s::Unique, found %d" % (adt_suffix, len(c)))
+        raise Unsupported("role discovery: expected exactly one function constructing %s::Unique, found %d" % (adt_suffix, len(c)))
     return c[0]
 
 
@@ -246,7 +246,7 @@ def hash_step_table(F, rep, rule="C02.1"):
     try:
         body = find_step(F, "compression::ExtMode")
     except Unsupported as e:
-        rep.violated(rule, "hash-route-step", str(e), witness={"kind": "anchor-missing"})
+        rep.inconclusive(rule, "hash-route-step", str(e))
         return None
     self_ty = body["locals"][1]
     adt_path = C.adt_name(F, self_ty)
@@ -449,7 +449,7 @@ def graph_step_table(F, rep, rule="C09.2"):
     try:
         body = find_step(F, "compression::ExtModeNode")
     except Unsupported as e:
-        rep.violated(rule, "graph-route-step", str(e), witness={"kind": "anchor-missing"})
+        rep.inconclusive(rule, "graph-route-step", str(e))
         return None
     adt_path = C.adt_name(F, body["locals"][1])
     all_leaves = []
